@@ -130,7 +130,7 @@ _RE_INV = re.compile(r"Invariant (\S+) is violated")
 
 
 def tlc(module, cfg, workers=None, timeout=900, env=None, simulate=None, depth=None, extra=None, tag=None,
-        stack_mb=64, heap="8g", export_to=None, seed=None, cwd=None, max_records=200000):
+        stack_mb=64, heap="8g", export_to=None, seed=None, cwd=None, max_records=200000, allow_fail=False):
     """Run TLC on spec/<module>.tla with spec/<cfg>. Returns TlcResult. rc: 0 ok, 12 invariant violated, ...
     Lines that TLC prints as a quoted JSON string (PrintT(ToJson(..))) are collected: into the file export_to
     (one decoded JSON value per line) when given, else into result.records."""
@@ -197,7 +197,7 @@ def tlc(module, cfg, workers=None, timeout=900, env=None, simulate=None, depth=N
         r.violated = m.group(1)
     if r.rc == 124:
         raise InfraError("TLC timed out after %ds: %s %s" % (timeout, module, cfg))
-    if r.rc not in (0, 12, 13):
+    if r.rc not in (0, 12, 13) and not allow_fail:
         log(r.out[-6000:])
         raise InfraError("TLC failed with exit %d on %s %s" % (r.rc, module, cfg))
     return r
@@ -205,19 +205,46 @@ def tlc(module, cfg, workers=None, timeout=900, env=None, simulate=None, depth=N
 
 def validate_trace(module, trace_path, tag=None, timeout=900, stack_mb=256, heap="8g", env=None):
     """Trace validation: TLC walks the ndjson log with the single variable l; the trace spec prints one JSON
-    record {"viol": l, "clauses": [...]} per rejected line. Returns (TlcResult, violations, nlines)."""
-    n = sum(1 for line in open(trace_path) if line.strip())
-    e = {"TRACE": trace_path}
-    if env:
-        e.update(env)
-    r = tlc(module, "Trace.cfg", workers=1, timeout=timeout, env=e, tag=tag or module, stack_mb=stack_mb, heap=heap)
-    if r.rc != 0:
+    record {"viol": l, "clauses": [...]} per rejected line. Returns (TlcResult, violations, nlines).
+    A recorded step on which the relation cannot even be evaluated (TLC stops with an evaluation error at line l: an index
+    outside a sequence, a missing field, ...) is outside the domain the specification is stated on: it is reported as a
+    rejection of that line (clause RecordOutsideSpecDomain) and validation continues with the remaining lines. This can
+    only happen with changed code: on the unchanged tree every recorded step evaluates."""
+    lines = [line for line in open(trace_path) if line.strip()]
+    n = len(lines)
+    idx = list(range(1, n + 1))           # original line numbers of the lines still in play
+    cur = trace_path
+    outside = []
+    for attempt in range(12):
+        e = {"TRACE": cur}
+        if env:
+            e.update(env)
+        r = tlc(module, "Trace.cfg", workers=1, timeout=timeout, env=e, tag=tag or module, stack_mb=stack_mb, heap=heap, allow_fail=True)
+        if r.rc == 0:
+            break
+        at = re.findall(r"^l = (\d+)\s*$", r.out, re.M)
+        if r.rc in (12, 13) or not at or int(at[-1]) < 1 or int(at[-1]) > len(idx):
+            log(r.out[-4000:])
+            raise InfraError("trace validation run of %s failed (exit %d)" % (module, r.rc))
+        bad = int(at[-1])
+        log("trace line %d cannot be evaluated by %s: %s" % (idx[bad - 1], module, " ".join(r.out[-1200:].split())[:600]))
+        outside.append(idx[bad - 1])
+        del idx[bad - 1]
+        cur = trace_path + ".evaluable"
+        with open(cur, "w") as f:
+            f.writelines(lines[k - 1] for k in idx)
+    else:
+        raise InfraError("trace validation of %s: more than 12 lines cannot be evaluated" % module)
+    if r.distinct != len(idx) + 1:
         log(r.out[-4000:])
-        raise InfraError("trace validation run of %s failed (exit %d)" % (module, r.rc))
-    if r.distinct != n + 1:
-        log(r.out[-4000:])
-        raise InfraError("trace spec %s consumed %d of %d lines" % (module, r.distinct - 1, n))
-    viols = [x for x in r.records if isinstance(x, dict) and "viol" in x]
+        raise InfraError("trace spec %s consumed %d of %d lines" % (module, r.distinct - 1, len(idx)))
+    viols = [dict(x, viol=idx[x["viol"] - 1]) for x in r.records if isinstance(x, dict) and "viol" in x]
+    viols += [{"viol": k, "clauses": ["RecordOutsideSpecDomain"]} for k in outside]
+    for x in r.records:
+        if isinstance(x, dict) and "drift" in x:
+            x["drift"] = idx[x["drift"] - 1]
+    if cur != trace_path and os.path.exists(cur):
+        os.remove(cur)
     return r, viols, n
 
 
